@@ -398,8 +398,9 @@ End UnfoldR.
 
 (* ---------- expressions: the fast paths are sound, ieval = reval ---------- *)
 Scheme expr_ind2 := Induction for expr Sort Prop
-  with args_ind2 := Induction for args Sort Prop.
-Combined Scheme expr_args_ind from expr_ind2, args_ind2.
+  with args_ind2 := Induction for args Sort Prop
+  with marms_ind2 := Induction for marms Sort Prop.
+Combined Scheme expr_args_ind from expr_ind2, args_ind2, marms_ind2.
 
 Section ExprEq.
 Variable funs : list fundef.
@@ -685,6 +686,62 @@ Lemma reval_same cf a b fr g : reval cf funs fn (ESame a b) fr g =
   end.
 Proof. reflexivity. Qed.
 
+Lemma ieval_match cf s m fr g : ieval cf funs fn (EMatch s m) fr g =
+  match ieval cf funs fn s fr g with
+  | Res (EV v) fr g => ieval_arms cf funs fn v m fr g
+  | r => r
+  end.
+Proof. reflexivity. Qed.
+Lemma ieval_arms_nil cf v fr g : ieval_arms cf funs fn v MNil fr g = Res (EV VNull) fr g.
+Proof. reflexivity. Qed.
+Lemma ieval_arms_default cf v e fr g : ieval_arms cf funs fn v (MDefault e) fr g = ieval cf funs fn e fr g.
+Proof. reflexivity. Qed.
+Lemma ieval_arms_cons cf v c e r fr g : ieval_arms cf funs fn v (MCons c e r) fr g =
+  match ieval_conds cf funs fn v c fr g with
+  | Res (inl true) fr g => ieval cf funs fn e fr g
+  | Res (inl false) fr g => ieval_arms cf funs fn v r fr g
+  | Res (inr x) fr g => Res (EX x) fr g
+  | Fuel => Fuel
+  end.
+Proof. reflexivity. Qed.
+Lemma ieval_conds_nil cf v fr g : ieval_conds cf funs fn v ANil fr g = Res (inl false) fr g.
+Proof. reflexivity. Qed.
+Lemma ieval_conds_cons cf v e r fr g : ieval_conds cf funs fn v (ACons e r) fr g =
+  match ieval cf funs fn e fr g with
+  | Res (EV w) fr g => if same_value v w then Res (inl true) fr g else ieval_conds cf funs fn v r fr g
+  | Res (EX x) fr g => Res (inr x) fr g
+  | Fuel => Fuel
+  end.
+Proof. reflexivity. Qed.
+
+Lemma reval_match cf s m fr g : reval cf funs fn (EMatch s m) fr g =
+  match reval cf funs fn s fr g with
+  | Res (EV v) fr g => reval_arms cf funs fn v m fr g
+  | r => r
+  end.
+Proof. reflexivity. Qed.
+Lemma reval_arms_nil cf v fr g : reval_arms cf funs fn v MNil fr g = Res (EV VNull) fr g.
+Proof. reflexivity. Qed.
+Lemma reval_arms_default cf v e fr g : reval_arms cf funs fn v (MDefault e) fr g = reval cf funs fn e fr g.
+Proof. reflexivity. Qed.
+Lemma reval_arms_cons cf v c e r fr g : reval_arms cf funs fn v (MCons c e r) fr g =
+  match reval_conds cf funs fn v c fr g with
+  | Res (inl true) fr g => reval cf funs fn e fr g
+  | Res (inl false) fr g => reval_arms cf funs fn v r fr g
+  | Res (inr x) fr g => Res (EX x) fr g
+  | Fuel => Fuel
+  end.
+Proof. reflexivity. Qed.
+Lemma reval_conds_nil cf v fr g : reval_conds cf funs fn v ANil fr g = Res (inl false) fr g.
+Proof. reflexivity. Qed.
+Lemma reval_conds_cons cf v e r fr g : reval_conds cf funs fn v (ACons e r) fr g =
+  match reval cf funs fn e fr g with
+  | Res (EV w) fr g => if same_value v w then Res (inl true) fr g else reval_conds cf funs fn v r fr g
+  | Res (EX x) fr g => Res (inr x) fr g
+  | Fuel => Fuel
+  end.
+Proof. reflexivity. Qed.
+
 Lemma reval_postinc cf x fr g : reval cf funs fn (EPostInc x) fr g =
   let '(nv, ov) := incr_value (rd fn x fr g) in
   let '(fr', g') := wr fn x nv fr g in Res (EV ov) fr' g'.
@@ -694,16 +751,18 @@ Variables cf1 cf2 : callfn.
 Hypothesis cf_eq : forall f vs g, cf1 f vs g = cf2 f vs g.
 
 Lemma ieval_reval_both :
-  (forall e fr g, ieval cf1 funs fn e fr g = reval cf2 funs fn e fr g) /\
-  (forall a fr g, ieval_args cf1 funs fn a fr g = reval_args cf2 funs fn a fr g).
+  (forall e, forall fr g, ieval cf1 funs fn e fr g = reval cf2 funs fn e fr g) /\
+  (forall a, (forall fr g, ieval_args cf1 funs fn a fr g = reval_args cf2 funs fn a fr g) /\
+             (forall v fr g, ieval_conds cf1 funs fn v a fr g = reval_conds cf2 funs fn v a fr g)) /\
+  (forall m, forall v fr g, ieval_arms cf1 funs fn v m fr g = reval_arms cf2 funs fn v m fr g).
 Proof.
   apply expr_args_ind; intros; try reflexivity;
     try rewrite ieval_bin; try rewrite ieval_assign, reval_assign;
     try rewrite ieval_not, reval_not; try rewrite ieval_and, reval_and; try rewrite ieval_or, reval_or;
     try rewrite ieval_arr, reval_arr; try rewrite ieval_call, reval_call;
-    try rewrite ieval_args_cons, reval_args_cons;
     try rewrite ieval_new, reval_new; try rewrite ieval_msg, reval_msg;
-    try rewrite ieval_class, reval_class; try rewrite ieval_same, reval_same.
+    try rewrite ieval_class, reval_class; try rewrite ieval_same, reval_same;
+    try rewrite ieval_match, reval_match.
   - (* EBin *)
     assert (S : islow cf1 o a b fr g = reval cf2 funs fn (EBin o a b) fr g).
     { unfold islow. rewrite reval_bin. rewrite H. destruct (reval cf2 funs fn a fr g) as [|[va|x] fr0 g0]; try reflexivity.
@@ -720,9 +779,9 @@ Proof.
     destruct (fast_assign fn e fr g) as [z|] eqn:E.
     + rewrite (fast_assign_reval cf2 _ _ _ _ E). reflexivity.
     + rewrite H. reflexivity.
-  - rewrite H. reflexivity.
+  - (* EArr *) destruct H as [H _]. rewrite H. reflexivity.
   - (* ECall *)
-    destruct (find_fun funs f); [|reflexivity]. rewrite H.
+    destruct H as [H _]. destruct (find_fun funs f); [|reflexivity]. rewrite H.
     destruct (reval_args cf2 funs fn a fr g) as [|[vs|x] fr0 g0]; try reflexivity.
     rewrite cf_eq. reflexivity.
   - rewrite H. reflexivity.
@@ -730,12 +789,24 @@ Proof.
   - rewrite H. reflexivity.
   - rewrite H. destruct (reval cf2 funs fn a fr g) as [|[va|x] fr0 g0]; try reflexivity.
     rewrite H0. reflexivity.
-  - rewrite H. destruct (reval cf2 funs fn e fr g) as [|[v|x] fr0 g0]; try reflexivity.
-    rewrite H0. reflexivity.
+  - (* EMatch *)
+    rewrite H. destruct (reval cf2 funs fn s fr g) as [|[v|x] fr0 g0]; try reflexivity. apply H0.
+  - (* ANil *) split; reflexivity.
+  - (* ACons *)
+    destruct H0 as [Ha Hc]. split; intros.
+    + rewrite ieval_args_cons, reval_args_cons, H.
+      destruct (reval cf2 funs fn e fr g) as [|[v|x] fr0 g0]; try reflexivity. rewrite Ha. reflexivity.
+    + rewrite ieval_conds_cons, reval_conds_cons, H.
+      destruct (reval cf2 funs fn e fr g) as [|[w|x] fr0 g0]; try reflexivity.
+      destruct (same_value v w); [reflexivity|apply Hc].
+  - (* MDefault *) rewrite ieval_arms_default, reval_arms_default. apply H.
+  - (* MCons *)
+    destruct H as [_ Hc]. rewrite ieval_arms_cons, reval_arms_cons, Hc.
+    destruct (reval_conds cf2 funs fn v c fr g) as [|[[|]|x] fr0 g0]; try reflexivity; auto.
 Qed.
 
 Lemma ieval_reval e fr g : ieval cf1 funs fn e fr g = reval cf2 funs fn e fr g.
-Proof. apply ieval_reval_both. Qed.
+Proof. apply (proj1 ieval_reval_both). Qed.
 
 Lemma ieval_each_reval a fr g : ieval_each cf1 funs fn a fr g = reval_each cf2 funs fn a fr g.
 Proof.
